@@ -16,6 +16,11 @@ CLAIMED = {
     "C01": (TV, "every tau* formula anthem emits for a generated rule is checked HT-equivalent to the TLA+ reference semantics of that "
                 "rule, for every HT interpretation over a finite base, by TLC", "7.1 C01", SEM_NOTE,
             "TLA+ reference semantics + TLC trace validation of anthem's tau* output (translation validation)", "tla-sem"),
+    "C04": (TV, "for every generated program anthem reports tight and every admissible input set, TLC compares, for every classical "
+                "interpretation over the mentioned atoms, 'model of anthem's completion' with 'stable model of the program' (brute force over "
+                "all smaller H); completion also compared with a reference completion built in TLA+; theories with a listed defect must be "
+                "refused", "7.1 C04", SEM_NOTE + "; tightness is anthem's own report",
+            "TLA+ reference semantics (stable models by enumeration) + TLC trace validation of completion output", "tla-sem"),
     "C05": (TV, "for every generated formula, every assignment and every pair H subset T over the base, TLC compares HT satisfaction of F "
                 "with classical satisfaction of anthem's gamma(F) under the h/t copy interpretation; copies checked distinct", "7.1 C05",
             SEM_NOTE, "TLA+ HT/classical semantics + TLC trace validation of gamma output", "tla-sem"),
@@ -35,6 +40,12 @@ CLAIMED = {
     "C17": (TV, "for every generated (formula, variable, term) TLC checks Sat(F[x:=t], e) = Sat(F, e[x := value of t]) for every "
                 "interpretation and assignment, and the free-variable equation", "7.1 C17", SEM_NOTE,
             "TLA+ semantics + TLC trace validation of Formula::substitute", "tla-sem"),
+    "C20": (MC, "Files.tla models Files::sort (one action per visited entry) and the role accessors; TLC checks walk = declarative walk and "
+                "the swap/move properties on every bounded layout; TLC-generated layouts are materialised on disk, run through the real CLI "
+                "and the observed roles (marker numerals in axioms/conjectures) validated against the model, including the swapped run",
+            "7.1 C20", "TLC; roles observed through marker numerals in saved problems; at most the first .spec/.ug/.po is used as in files.rs",
+            "TLA+ model of file-role assignment, TLC model checking + generated layouts replayed through the CLI + trace validation",
+            "tla-pipeline"),
 }
 
 PENDING = "check not built yet in this revision (work in progress; see DESIGN.md section 12)"
